@@ -606,7 +606,11 @@ end
 inductive Arg | plain (r : Raw) | elem (e : Node)
   deriving Repr, Inhabited
 
-inductive SortKey | u | ulen
+inductive SortKey
+  | u       -- `lambda e: e.u`
+  | ulen    -- `lambda e: len(e.u)`
+  | len     -- `lambda e: len(e)` (sequence members): only a MEMBER has a length, a ListSlot has none
+  | field   -- `lambda e: e[<first field>].u` (Dict members): only a member can be subscripted
   deriving DecidableEq, Repr, Inhabited
 
 inductive SeqOp
@@ -671,6 +675,16 @@ def sigU : Sig → Str
   | .sc _ u => u
   | _ => []
 
+/-- `len(e)` of a sequence member, read off its structure -/
+def sigLen : Sig → Nat
+  | .seq xs => xs.length
+  | _ => 0
+
+/-- `e[<first field>].u` of a Dict member, read off its structure -/
+def sigFieldU : Sig → Str
+  | .map ((_, s) :: _) => sigU s
+  | _ => []
+
 /-- `key(a) <= key(b)` (`>=` under `reverse=True`) on the `(value, u)` of two items -/
 def sigLe (key : SortKey) (rev : Bool) (a b : Sig) : Bool :=
   match key, rev with
@@ -678,12 +692,36 @@ def sigLe (key : SortKey) (rev : Bool) (a b : Sig) : Bool :=
   | .u, true => strLe (sigU b) (sigU a)
   | .ulen, false => (sigU a).length ≤ (sigU b).length
   | .ulen, true => (sigU b).length ≤ (sigU a).length
+  | .len, false => sigLen a ≤ sigLen b
+  | .len, true => sigLen b ≤ sigLen a
+  | .field, false => strLe (sigFieldU a) (sigFieldU b)
+  | .field, true => strLe (sigFieldU b) (sigFieldU a)
 
 def sortLe (key : SortKey) (rev : Bool) (a b : Node) : Bool := sigLe key rev (sig a) (sig b)
 
-/-- is every member a scalar (so that the sort keys of the model are defined)? -/
+/-- is every member a scalar (so that the text keys of the model are defined)? -/
 def scalarMembers (n : Node) : Bool :=
   (members n).all (fun m => m.kind == .integer || m.kind == .string)
+
+/-- the items of the underlying list define no ordering: slots never do, elements do not unless
+    they are sequences (which inherit `list.__lt__`) -/
+def noOrderItems (n : Node) : Bool :=
+  decide (n.kind = .list) ||
+    n.kids.all (fun x => !(x.kind == .list || x.kind == .array || x.kind == .multi))
+
+/-- does the key function of the model apply to an item of this structure? -/
+def sigKeyOK : SortKey → Sig → Bool
+  | .u, .sc _ _ => true
+  | .ulen, .sc _ _ => true
+  | .len, .seq _ => true
+  | .field, .map ((_, .sc _ _) :: _) => true
+  | _, _ => false
+
+/-- the sort keys of the model are defined on every item (a MultiValue member shows its first
+    member as `(value, u)`, but `len()` counts all its members: no `len` key there) -/
+def sortGate (k : SortKey) (n : Node) : Bool :=
+  (n.kids.map sig).all (sigKeyOK k) &&
+    (decide (k ≠ .len) || (members n).all (fun x => !(x.kind == .multi)))
 
 /-- `List.append` / `Sequence.append` for an already wrapped element -/
 def appendEl (n : Node) (w : Node) (next : Nat) : Node × Nat :=
@@ -701,19 +739,35 @@ def extendArgs (m : Schema) : Node → List Arg → Nat → Node × Nat × Optio
       let r := appendEl n w n1
       extendArgs m r.1 as r.2
 
-/-- `.u` as `__imul__` reads it off a member -/
-def uOfMember (m : Node) : Str :=
-  match m.kind with
-  | .integer | .string => m.ni.u
-  | .multi | .slot => (match m.kids.head? with | some k => k.ni.u | none => [])
-  | _ => ['x']    -- containers render a non-empty text; their value is never None
+mutual
+/-- `_replica_value(element)` (containers.py): a plain value that rebuilds the element's state when
+    set on a fresh one — like `.value`, except that EVERY member of a sequence is kept (a
+    MultiValue's value is its first member only) and that a scalar holding unadaptable text
+    contributes that text -/
+def replicaValue : Node → Raw
+  | .mk i s kids =>
+    match s.kind with
+    | .integer | .string =>
+      (match i.val with
+       | .none => if i.u.isEmpty then .none else .str i.u
+       | .int n => .int n
+       | .str t => .str t)
+    | .slot => replicaFirst kids
+    | .list | .array | .multi => .list (replicaL kids)     -- a List's slot is read through to its element
+    | .dict | .sparse => .dict (replicaKV kids)
+def replicaFirst : List Node → Raw
+  | [] => .none
+  | n :: _ => replicaValue n
+def replicaL : List Node → List Raw
+  | [] => []
+  | n :: ns => replicaValue n :: replicaL ns
+def replicaKV : List Node → List (Str × Raw)
+  | [] => []
+  | n :: ns => (n.key, replicaValue n) :: replicaKV ns
+end
 
-/-- the value `__imul__` re-feeds for a member:
-    `member.value if member.value is not None or not member.u else member.u` -/
-def imulValue (m : Node) : Raw :=
-  match valueOf m with
-  | .none => if (uOfMember m).isEmpty then .none else .str (uOfMember m)
-  | v => v
+/-- the value `Sequence.__imul__` re-feeds for a member -/
+def imulValue (m : Node) : Raw := replicaValue m
 
 /-- `for _ in range(count - 1): self.extend(values)` -/
 def imulLoop (m : Schema) (vals : List Arg) : Nat → Node → Nat → Node × Nat × Option Exc
@@ -856,10 +910,13 @@ def seqStep (n : Node) (op : SeqOp) (next : Nat) : StepR :=
   | .sort key rev =>
     (match key with
      | none =>
-       -- elements (and slots) define no ordering: any comparison raises TypeError
-       if n.kids.length ≤ 1 then ⟨n, next, .ok, []⟩ else excOut n next .typeError
+       -- elements (and slots) define no ordering: any comparison raises TypeError — except that
+       -- List / Array / MultiValue members ARE Python lists and compare as such (outside the model)
+       if n.kids.length ≤ 1 then ⟨n, next, .ok, []⟩
+       else if noOrderItems n then excOut n next .typeError
+       else excOut n next .unsupported
      | some k =>
-       if scalarMembers n then
+       if sortGate k n then
          let kids' := sortBy (sortLe k rev) n.kids
          ⟨n.withKids (if isList then renumber kids' else kids'), next, .ok, []⟩
        else excOut n next .unsupported)
